@@ -120,6 +120,17 @@ impl DepsGraph {
         }
     }
 
+    fn add_deps(&mut self, asset_key: Dependency, deps: Dependencies) {
+        for key in deps.iter() {
+            let entry = self.0.entry(key.clone()).or_default();
+            entry.rdeps.insert(asset_key.clone());
+        }
+
+        if let Some(entry) = self.0.get_mut(&asset_key) {
+            entry.deps.extend(&deps);
+        }
+    }
+
     pub fn topological_sort_from<'a>(
         &self,
         iter: impl IntoIterator<Item = &'a OwnedDirEntry>,
@@ -164,10 +175,12 @@ impl DepsGraph {
         let b_key = BorrowedDependency::Asset(&key);
         if let Some(entry) = self.0.get_mut(&b_key as &dyn Key) {
             if let Some(typ) = entry.typ {
-                let new_deps = cache.reload_untyped(id.clone(), typ);
-
-                if let Some(new_deps) = new_deps {
-                    self.insert(Dependency::Asset(key), new_deps, typ);
+                match cache.reload_untyped(id.clone(), typ) {
+                    Some((new_deps, true)) => self.insert(Dependency::Asset(key), new_deps, typ),
+                    // The asset keeps its value and its dependencies, but it
+                    // must also be reloaded when what made it fail is fixed
+                    Some((new_deps, false)) => self.add_deps(Dependency::Asset(key), new_deps),
+                    None => (),
                 }
             }
         }
